@@ -57,6 +57,10 @@ CHECKS = {
    tech="TLA+ specs SearchFlow.tla (scenario enumeration) + TraceSearch.tla P13 for paired real searches with/without boosts; Context.tla + MCContext (every subset of a marker palette x file content classes) for directory analysis, each directory materialised and analysed by the real code, validated by TLC",
    text="For TLC-enumerated scenarios with context boosts the real search is run with and without them at a limit above the database size and TLC checks on the recorded pair: identical candidate sets, no lower score for a command containing a boosted word, identical score for one containing none (NLP on and off, several boost maps, shipped database). TLC enumerates every subset of a palette of marker/decoy files with valid/malformed/odd/huge package.json and Makefile contents; each directory is created twice (different creation order), analysed by the real analyzer, and TLC checks distinct types, generic exactly alone, determinism and finite boosts >= 1.",
    note="Reference tokeniser and float comparisons are harness-side; marker table only constrained for documented markers and made-up names."),
+ "C06": dict(cat="model_checking", ref="DESIGN.md section 5, C06",
+   tech="TLA+ spec TermSelect.tla (Enhance/Cap stages): TLC exhaustive on scaled constants; generated queries run on the real engine with NLP off/on and through ProcessQuery; TLC validates each recorded observation (TraceSearch.tla TNlp)",
+   text="TLC checks on every user token list (scaled constants) that enhancement appends and the cap keeps the user's words (up to M) and always the first P; generated sentences (action/target/stop/synonym/unknown/repeated words, 1..14 content words, synthetic and shipped database) are searched with NLP off and on at a limit above the database size and analysed by the real ProcessQuery; TLC checks for each: off-results are a subset of on-results up to ten content words, matches of the first four words are always retained, the expanded list starts with the keywords in the user's order without duplicates, and re-analysis is identical.",
+   note="Reference tokeniser counts content words; real constants covered by generated queries, scaled ones exhaustively."),
 }
 NOT_APPLICABLE = {}
 
